@@ -595,9 +595,13 @@ def loadD (std : Std) (cfg : Option MetaCfg) : Ty → JVal → LRes
             else rawE "TypeError"
   | .typeddict _ fields, o =>
       match o with
-      | .dict kvs => do
-          let ps ← loadTd std cfg fields kvs
-          pure (.map .dict ps)
+      | .dict kvs =>
+          -- `TypedDictParser.__call__` turns *any* KeyError escaping the hook into a ParseError — also one raised by a
+          -- nested loader (e.g. a NamedTuple member given a dict with an unknown field name)
+          match loadTd std cfg fields kvs with
+          | .ok ps => pure (.map .dict ps)
+          | .error (.raw k) => if k == "KeyError".toList then parseE else .error (.raw k)
+          | .error e => .error e
       | _ => tdJunk fields o
   | .cls ci ftys, o =>
       loadClassWith (fun f v => loadField std cfg f v ftys) (effMeta ci.cmeta cfg) ci o
